@@ -19,11 +19,12 @@ structure Same (w w' : World) : Prop where
   router : w'.router = w.router
   denoms : w'.denoms = w.denoms
   rawId : w'.rawId = w.rawId
+  badAddr : w'.badAddr = w.badAddr
 
-theorem Same.refl (w : World) : Same w w := ⟨rfl, rfl, rfl, rfl, rfl, rfl, rfl⟩
+theorem Same.refl (w : World) : Same w w := ⟨rfl, rfl, rfl, rfl, rfl, rfl, rfl, rfl⟩
 theorem Same.trans {a b c : World} (h1 : Same a b) (h2 : Same b c) : Same a c :=
   ⟨h2.pair.trans h1.pair, h2.registry.trans h1.registry, h2.owner.trans h1.owner, h2.facAddr.trans h1.facAddr,
-   h2.router.trans h1.router, h2.denoms.trans h1.denoms, h2.rawId.trans h1.rawId⟩
+   h2.router.trans h1.router, h2.denoms.trans h1.denoms, h2.rawId.trans h1.rawId, h2.badAddr.trans h1.badAddr⟩
 
 /-- total supply of a cw20 token, 0 if unknown -/
 def supply (w : World) (t : Nat) : Nat := match w.tok t with | some T => T.supply | none => 0
@@ -34,6 +35,32 @@ def SameToks (w w' : World) : Prop := ∀ t, (w'.tok t).isSome = (w.tok t).isSom
 theorem SameToks.refl (w : World) : SameToks w w := fun _ => rfl
 theorem SameToks.trans {a b c : World} (h1 : SameToks a b) (h2 : SameToks b c) : SameToks a c :=
   fun t => (h2 t).trans (h1 t)
+
+/-! ### address validation -/
+
+theorem validAddr_ok_iff {w : World} {a : Nat} {u : Unit} : validAddr w a = .ok u ↔ w.badAddr a = false := by
+  unfold validAddr
+  cases w.badAddr a <;> simp
+
+theorem validTo_ok_iff {w : World} {dst : Option Nat} {u : Unit} : validTo w dst = .ok u ↔ badTo w dst = false := by
+  unfold validTo
+  cases badTo w dst <;> simp
+
+theorem badTo_some (w : World) (a : Nat) : badTo w (some a) = w.badAddr a := rfl
+theorem badTo_none (w : World) : badTo w none = false := rfl
+
+theorem validTo_none (w : World) : validTo w none = .ok () := rfl
+
+theorem validTo_bad {w : World} {a : Nat} (h : w.badAddr a = true) : validTo w (some a) = .error .err := by
+  simp [validTo, badTo, h]
+
+theorem validAddr_bad {w : World} {a : Nat} (h : w.badAddr a = true) : validAddr w a = .error .err := by
+  simp [validAddr, h]
+
+theorem validTo_congr {w w' : World} (h : w'.badAddr = w.badAddr) (dst : Option Nat) : validTo w' dst = validTo w dst := by
+  have hb : badTo w' dst = badTo w dst := by cases dst <;> simp [badTo, h]
+  unfold validTo
+  rw [hb]
 
 /-! ### bank -/
 
@@ -51,7 +78,7 @@ theorem bankMove1_ok {w w' : World} {src dst d amt : Nat} (h : bankMove1 w src d
 theorem bankMove1_same {w w' : World} {src dst d amt : Nat} (h : bankMove1 w src dst d amt = .ok w') :
     Same w w' ∧ w'.tok = w.tok := by
   obtain ⟨_, rfl⟩ := bankMove1_ok h
-  exact ⟨⟨rfl, rfl, rfl, rfl, rfl, rfl, rfl⟩, rfl⟩
+  exact ⟨⟨rfl, rfl, rfl, rfl, rfl, rfl, rfl, rfl⟩, rfl⟩
 
 theorem bankMove1_bank {w w' : World} {src dst d amt : Nat} (h : bankMove1 w src dst d amt = .ok w') (a x : Nat) :
     w'.bank a x =
@@ -130,7 +157,7 @@ theorem bankSend_single {w w' : World} {src dst d amt : Nat} (h : bankSend w src
 /-! ### cw20 -/
 
 theorem setTok_same (w : World) (t : Nat) (T : Token) : Same w (setTok w t T) ∧ (setTok w t T).bank = w.bank :=
-  ⟨⟨rfl, rfl, rfl, rfl, rfl, rfl, rfl⟩, rfl⟩
+  ⟨⟨rfl, rfl, rfl, rfl, rfl, rfl, rfl, rfl⟩, rfl⟩
 
 theorem setTok_tok (w : World) (t : Nat) (T : Token) (a : Nat) :
     (setTok w t T).tok a = if a = t then some T else w.tok a := rfl
@@ -523,6 +550,75 @@ theorem tokSendFrom_ok {name : Asset → String} {w w' : World} {t sp o d amt : 
       simp only [bind_ok_iff, pure_ok_iff, Prod.mk.injEq] at h
       obtain ⟨w1, h1, w2, h2, rfl, rfl⟩ := h
       exact ⟨w1, h1, .inr ⟨by simpa using hp, hd, rfl, h2⟩⟩
+    · cases h
+
+/-! ### the router's entry points after address validation -/
+
+/-- the router hook: the cw20 sender and the optional recipient are valid addresses, and the payload is a route -/
+theorem routerReceive_ok {name : Asset → String} {w w' : World} {from_ : Nat} {hk : Hook}
+    (h : routerReceive name w from_ hk = .ok w') :
+    ∃ ops mn dst, hk = .routerOps ops mn dst ∧ w.badAddr from_ = false ∧ badTo w dst = false ∧
+      routerSwapOps name w from_ ops mn dst = .ok w' := by
+  unfold routerReceive at h
+  split at h
+  · cases h
+  rename_i hf
+  split at h
+  · rename_i ops mn dst
+    simp only [bind_ok_iff] at h
+    obtain ⟨_, hv, h⟩ := h
+    exact ⟨ops, mn, dst, rfl, by simpa using hf, validTo_ok_iff.mp hv, h⟩
+  · cases h
+
+theorem routerExec_swapOps_ok {name : Asset → String} {w w' : World} {s : Nat} {funds : List (Nat × Nat)}
+    {ops : List (Asset × Asset)} {mn dst : Option Nat} (h : routerExec name w s funds (.swapOps ops mn dst) = .ok w') :
+    ∃ w0, attach w s w.router funds = .ok w0 ∧ badTo w0 dst = false ∧ routerSwapOps name w0 s ops mn dst = .ok w' := by
+  unfold routerExec at h
+  simp only [bind_ok_iff] at h
+  obtain ⟨w0, h0, _, hv, h⟩ := h
+  exact ⟨w0, h0, validTo_ok_iff.mp hv, h⟩
+
+theorem routerExec_swapOp_ok {name : Asset → String} {w w' : World} {s : Nat} {funds : List (Nat × Nat)}
+    {o a : Asset} {dst : Option Nat} (h : routerExec name w s funds (.swapOp o a dst) = .ok w') :
+    ∃ w0, attach w s w.router funds = .ok w0 ∧ badTo w0 dst = false ∧ routerHop w0 s o a dst = .ok w' := by
+  unfold routerExec at h
+  simp only [bind_ok_iff] at h
+  obtain ⟨w0, h0, _, hv, h⟩ := h
+  exact ⟨w0, h0, validTo_ok_iff.mp hv, h⟩
+
+theorem routerExec_assertMin_ok {name : Asset → String} {w w' : World} {s : Nat} {funds : List (Nat × Nat)}
+    {a : Asset} {prev mn rcv : Nat} (h : routerExec name w s funds (.assertMin a prev mn rcv) = .ok w') :
+    ∃ w0, attach w s w.router funds = .ok w0 ∧ w0.badAddr rcv = false ∧
+      routerAssertMin w0 s a prev mn rcv = .ok () ∧ w' = w0 := by
+  unfold routerExec at h
+  simp only [bind_ok_iff, pure_ok_iff] at h
+  obtain ⟨w0, h0, _, hv, _, h1, h2⟩ := h
+  exact ⟨w0, h0, validAddr_ok_iff.mp hv, h1, h2.symm⟩
+
+theorem routerExec_receive_ok {name : Asset → String} {w w' : World} {s : Nat} {funds : List (Nat × Nat)}
+    {from_ amount : Nat} {hk : Hook} (h : routerExec name w s funds (.receive from_ amount hk) = .ok w') :
+    ∃ w0, attach w s w.router funds = .ok w0 ∧ routerReceive name w0 from_ hk = .ok w' := by
+  unfold routerExec at h
+  simp only [bind_ok_iff] at h
+  obtain ⟨w0, h0, h⟩ := h
+  exact ⟨w0, h0, h⟩
+
+/-- cw20 `Send`: a transfer followed by the hook delivery to a pair or to the router -/
+theorem tokSend_ok {name : Asset → String} {w w' : World} {t s d amt : Nat} {hk : Hook} {out : Out}
+    (h : tokSend name w t s d amt hk = .ok (w', out)) :
+    ((w.pair d).isSome ∧ tokSendPair w t s d amt hk = .ok (w', out)) ∨
+    ((w.pair d).isSome = false ∧ d = w.router ∧ out = .none ∧
+      ∃ w1, tokTransfer w t s d amt = .ok w1 ∧ routerReceive name w1 s hk = .ok w') := by
+  unfold tokSend at h
+  split at h
+  · rename_i hp
+    exact .inl ⟨hp, h⟩
+  · rename_i hp
+    split at h
+    · rename_i hd
+      simp only [bind_ok_iff, pure_ok_iff, Prod.mk.injEq] at h
+      obtain ⟨w1, h1, w2, h2, rfl, rfl⟩ := h
+      exact .inr ⟨by simpa using hp, hd, rfl, w1, h1, h2⟩
     · cases h
 
 /-- `payout` of a single asset moves exactly `amt` (non-zero) from `src` to `dst` -/
